@@ -173,6 +173,10 @@ class Analysis:
             if fk is not None and fk[0] == "f" and fk in st:
                 return st[fk]
             return frozenset([("U", "field " + show(e))])
+        if k == "Call" and isinstance(e.get("ret"), dict) and e.get("fn") != self.check_fn:
+            # a call of a file-local helper whose body was spliced in (engine/inline.py): its value is what the spliced
+            # `return` statements stored
+            return st.get(("v", e["ret"]["n"], e["ret"].get("id")), frozenset([("U", "result of " + (e.get("fn") or "?"))]))
         if k == "Call":
             fn = e.get("fn")
             if fn == self.check_fn:
